@@ -139,7 +139,7 @@ theorem classSetChar_neutral (F : Feat) {s r' : List Nat} {v : Nat} (h : classSe
         refine ⟨[x], rfl, by simp, fun m => neutralM_plain F m ?_⟩
         simp only [isClassSetSyntaxChar, Bool.or_eq_false_iff, beq_eq_false_iff_ne] at hs
         obtain ⟨⟨⟨⟨⟨⟨⟨⟨⟨a1, a2⟩, a3⟩, a4⟩, a5⟩, a6⟩, a7⟩, a8⟩, a9⟩, a10⟩ := hs
-        exact ⟨a1, a2, a9, a3, a4⟩
+        exact ⟨a1, a2, a9, a3, a4, a10⟩
 
 /-! ## `\\q{…}` -/
 
@@ -194,7 +194,7 @@ theorem qGo_sim (F : Feat) (hn : Bool) : ∀ (fuel : Nat) (s : List Nat) (len : 
     alt.length = len → alts.any (fun a => a.length != 1) = ms →
     match qGo fuel s len ms with
     | .ok (r', ms') => (∃ alts', classStringLoop true hn f s alts alt = .ok (alts', r') ∧
-          alts'.any (fun a => a.length != 1) = ms') ∧ ∃ t, s = t ++ r' ∧ ∀ m, NeutralM F m t
+          alts'.any (fun a => a.length != 1) = ms') ∧ ∃ t, s = t ++ r' ∧ ∀ m, NeutralM F (m + 1) t
     | .bad => IsSyn (classStringLoop true hn f s alts alt)
     | .fuel => False := by
   intro fuel
@@ -212,7 +212,7 @@ theorem qGo_sim (F : Feat) (hn : Bool) : ∀ (fuel : Nat) (s : List Nat) (len : 
     by_cases hc1 : c = 0x7D
     · subst hc1
       simp only [beq_self_eq_true, if_true]
-      exact ⟨⟨_, rfl, hfin⟩, [0x7D], rfl, fun m => neutralM_plain F m (by refine ⟨?_, ?_, ?_, ?_, ?_⟩ <;> decide)⟩
+      exact ⟨⟨_, rfl, hfin⟩, [0x7D], rfl, fun m => neutralM_plain F (m + 1) (by refine ⟨?_, ?_, ?_, ?_, ?_, ?_⟩ <;> decide)⟩
     by_cases hc2 : c = 0x7C
     · subst hc2
       simp only [Nat.reduceBEq, Bool.false_eq_true, if_false, beq_self_eq_true, if_true]
@@ -226,7 +226,7 @@ theorem qGo_sim (F : Feat) (hn : Bool) : ∀ (fuel : Nat) (s : List Nat) (len : 
         obtain ⟨h1, t, ht, hnt⟩ := this
         refine ⟨h1, 0x7C :: t, by rw [ht]; rfl, fun m => ?_⟩
         exact neutralM_append (p := [0x7C])
-          (neutralM_plain F m (by refine ⟨?_, ?_, ?_, ?_, ?_⟩ <;> decide)) (hnt m)
+          (neutralM_in F m (by decide) (by decide) (.inr (by decide))) (hnt m)
     have e1 : (c == 0x7D) = false := by simp [hc1]
     have e2 : (c == 0x7C) = false := by simp [hc2]
     have hm : (match c :: rest with
@@ -274,7 +274,7 @@ theorem qGo_sim (F : Feat) (hn : Bool) : ∀ (fuel : Nat) (s : List Nat) (len : 
         obtain ⟨r', ms'⟩ := p
         rw [hq] at this
         obtain ⟨h1, t, ht, hnt⟩ := this
-        exact ⟨h1, t1 ++ t, by rw [ht1, ht]; simp, fun m => neutralM_append (hnt1 m) (hnt m)⟩
+        exact ⟨h1, t1 ++ t, by rw [ht1, ht]; simp, fun m => neutralM_append (hnt1 (m + 1)) (hnt m)⟩
 
 
 /-! ### `may_contain_strings` through the set operations -/
@@ -806,7 +806,7 @@ end
 theorem brk_cons_br (r : List Nat) : brk (0x5B :: r) = brk r + 1 := by simp [brk]
 theorem brk_cons_ne {c : Nat} (r : List Nat) (h : c ≠ 0x5B) : brk (c :: r) = brk r := by simp [brk, h]
 
-theorem plain_caret : Plain 0x5E := by refine ⟨?_, ?_, ?_, ?_, ?_⟩ <;> decide
+theorem plain_caret : Plain 0x5E := by refine ⟨?_, ?_, ?_, ?_, ?_, ?_⟩ <;> decide
 
 /-- The operand, from the nested class one level down. -/
 theorem svo_step {F : Feat} {c : Cfg} {fl : Flags} (X : VCtx F c fl) (hn : Bool) {n : Nat}
@@ -901,8 +901,8 @@ theorem svo_step {F : Feat} {c : Cfg} {fl : Flags} (X : VCtx F c fl) (hn : Bool)
           · simp only [Operand.mayContainStrings]
             rw [classStringSet_ms, hms]; rfl
           · refine neutralM_append (p := [0x5C, 0x71]) (neutralM_esc F (d + 1) 0x71)
-              (neutralM_append (p := [0x7B]) (neutralM_plain F (d + 1) (by refine ⟨?_, ?_, ?_, ?_, ?_⟩ <;> decide))
-                (hnt (d + 1)))
+              (neutralM_append (p := [0x7B]) (neutralM_plain F (d + 1) (by refine ⟨?_, ?_, ?_, ?_, ?_, ?_⟩ <;> decide))
+                (hnt d))
       · -- `\\q` without `{`
         have hnb : ∀ r2, r ≠ 0x7B :: r2 := fun r2 e => hbr ⟨r2, e⟩
         rw [vOperand_esc c n r (fun r' h => hnb r' h.2)]
@@ -1091,7 +1091,7 @@ theorem vItem_succ (c : Cfg) (j : Nat) (s : List Nat) : vItem c (j + 1) s =
 
 
 
-theorem plain_dash : Plain 0x2D := by refine ⟨?_, ?_, ?_, ?_, ?_⟩ <;> decide
+theorem plain_dash : Plain 0x2D := by refine ⟨?_, ?_, ?_, ?_, ?_, ?_⟩ <;> decide
 
 /-! ### `itemU` and `vItem` by cases -/
 
@@ -1577,7 +1577,7 @@ theorem svi_step {n : Nat} (hO : SVO F c fl hn n) (hI : SVI F c fl hn n) : SVI F
           exact neutralM_plains F (d + 1) (by
             intro z hz
             simp only [List.mem_cons, List.not_mem_nil, or_false] at hz
-            rcases hz with rfl | rfl <;> (refine ⟨?_, ?_, ?_, ?_, ?_⟩ <;> decide))
+            rcases hz with rfl | rfl <;> (refine ⟨?_, ?_, ?_, ?_, ?_, ?_⟩ <;> decide))
       · have hn2 : ∀ r3, r2 ≠ 0x26 :: r3 := fun r3 e => ha2 ⟨r3, e⟩
         rw [vInter_other c n' _ (by intro r h; cases h) (by intro r h; cases h; exact hn2 _ rfl)]
         simp only [hi1, Nat.reduceBEq, Bool.false_eq_true, if_false, beq_self_eq_true, if_true]
@@ -1657,7 +1657,7 @@ theorem svs_step {n : Nat} (hO : SVO F c fl hn n) (hS : SVS F c fl hn n) : SVS F
           exact neutralM_plains F (d + 1) (by
             intro z hz
             simp only [List.mem_cons, List.not_mem_nil, or_false] at hz
-            rcases hz with rfl | rfl <;> (refine ⟨?_, ?_, ?_, ?_, ?_⟩ <;> decide))
+            rcases hz with rfl | rfl <;> (refine ⟨?_, ?_, ?_, ?_, ?_, ?_⟩ <;> decide))
       · have hn2 : ∀ r3, r2 ≠ 0x2D :: r3 := fun r3 e => ha2 ⟨r3, e⟩
         rw [vSub_other c n' _ (by intro r h; cases h) (by intro r h; cases h; exact hn2 _ rfl)]
         simp only [hi1, Nat.reduceBEq, Bool.false_eq_true, if_false, beq_self_eq_true, if_true]
@@ -1839,7 +1839,7 @@ theorem svc_step {j : Nat} (hO : SVO F c fl hn j) (hU : SVU F c fl hn (j + 1)) (
         exact neutralM_plains F (d + 1) (by
           intro z hz
           simp only [List.mem_cons, List.not_mem_nil, or_false] at hz
-          rcases hz with rfl | rfl <;> (refine ⟨?_, ?_, ?_, ?_, ?_⟩ <;> decide))
+          rcases hz with rfl | rfl <;> (refine ⟨?_, ?_, ?_, ?_, ?_, ?_⟩ <;> decide))
     by_cases hd : ∃ r2, r1 = 0x2D :: 0x2D :: r2
     · -- `--`
       obtain ⟨r2, rfl⟩ := hd
@@ -1863,7 +1863,7 @@ theorem svc_step {j : Nat} (hO : SVO F c fl hn j) (hU : SVU F c fl hn (j + 1)) (
         exact neutralM_plains F (d + 1) (by
           intro z hz
           simp only [List.mem_cons, List.not_mem_nil, or_false] at hz
-          rcases hz with rfl | rfl <;> (refine ⟨?_, ?_, ?_, ?_, ?_⟩ <;> decide))
+          rcases hz with rfl | rfl <;> (refine ⟨?_, ?_, ?_, ?_, ?_, ?_⟩ <;> decide))
     -- a union
     have hna : ∀ r, r1 ≠ 0x26 :: 0x26 :: r := fun r e => ha ⟨r, e⟩
     have hnd : ∀ r, r1 ≠ 0x2D :: 0x2D :: r := fun r e => hd ⟨r, e⟩
